@@ -1314,3 +1314,302 @@ Theorem type_create_rows w rows options excl f :
 Proof.
   unfold type_create. intros H. inversion H; subst; cbn [t_w t_inv t_ar]. repeat split; auto; apply dedupe_t_In.
 Qed.
+
+(* ================================================================ the templates *)
+Lemma forall2b_app {A B} (f : A -> B -> bool) : forall a1 b1 a2 b2, length a1 = length b1 ->
+  forall2b f (a1 ++ a2) (b1 ++ b2) = forall2b f a1 b1 && forall2b f a2 b2.
+Proof.
+  induction a1; destruct b1; cbn; intros a2 b2 H; try discriminate; auto.
+  rewrite IHa1 by auto. rewrite andb_assoc. reflexivity.
+Qed.
+
+Lemma forall2b_In_r {A B} (f : A -> B -> bool) : forall a b y, forall2b f a b = true -> In y b ->
+  exists x, In x a /\ f x y = true.
+Proof.
+  induction a as [|a0 a IHa]; destruct b as [|b0 b]; cbn; intros y H Hy; try discriminate; [destruct Hy|].
+  apply andb_true_iff in H. destruct H as [H1 H2]. destruct Hy as [<-|Hy]; [eauto|].
+  destruct (IHa b y H2 Hy) as [x [Hx Hf]]. eauto.
+Qed.
+
+Lemma forall2b_length {A B} (f : A -> B -> bool) : forall a b, forall2b f a b = true -> length a = length b.
+Proof. induction a; destruct b; cbn; intros H; try discriminate; auto. apply andb_true_iff in H. f_equal. apply IHa. tauto. Qed.
+
+Lemma forall2b_all_object : forall l, forall2b subclassb l (repeat TObject (length l)) = true.
+Proof. induction l; cbn; auto. Qed.
+
+Lemma subclass_tail x : subclassb x TTail = true <-> x = TTail.
+Proof. cbn. apply ntype_eqb_eq. Qed.
+
+(* the type filter of both templates ([HoldTail, object, ...] in ANY_ORDER): some row matches iff some note is a tail *)
+Lemma tail_rows_char (rows : list (list ntype)) n tys :
+  (1 <= n)%nat -> length tys = n ->
+  (forall r, In r rows <-> Permutation (TTail :: repeat TObject (n - 1)) r) ->
+  existsb (forall2b subclassb tys) rows = existsb (fun t => ntype_eqb t TTail) tys.
+Proof.
+  intros Hn Hl Hrows. apply bool_eq_iff. rewrite !existsb_exists. split.
+  - intros [row [Hrow Hf]]. apply Hrows in Hrow.
+    assert (Hin : In TTail row) by (eapply Permutation_in; eauto; left; auto).
+    destruct (forall2b_In_r _ _ _ _ Hf Hin) as [x [Hx Hs]]. apply subclass_tail in Hs. subst.
+    exists TTail. split; auto.
+  - intros [t [Ht He]]. apply ntype_eqb_eq in He. subst t. apply in_split in Ht. destruct Ht as [l1 [l2 ->]].
+    exists (repeat TObject (length l1) ++ TTail :: repeat TObject (length l2)). split.
+    + apply Hrows. rewrite <- Permutation_middle. constructor. rewrite <- repeat_app.
+      rewrite app_length in Hl. cbn in Hl. replace (n - 1)%nat with (length l1 + length l2)%nat by lia. reflexivity.
+    + rewrite forall2b_app by (rewrite repeat_length; auto). cbn [forall2b].
+      rewrite !forall2b_all_object. reflexivity.
+Qed.
+
+Lemma type_create_tail n : (1 <= n)%nat ->
+  exists tf, type_create (In2 n [TTail :: repeat TObject (n - 1)]) 1 true = Some tf /\
+             t_w tf = n /\ t_inv tf = true /\
+             forall r, In r (t_ar tf) <-> Permutation (TTail :: repeat TObject (n - 1)) r.
+Proof.
+  intros Hn. destruct (type_create (In2 n [TTail :: repeat TObject (n - 1)]) 1 true) as [tf|] eqn:E; [|discriminate].
+  exists tf. split; auto. apply type_create_rows in E. destruct E as [Hw [Hi Hr]]. repeat split; auto.
+  - intros H. apply Hr in H. change (Z.testbit 1 0) with true in H. apply any_order_In in H.
+    destruct H as [b [[<-|[]] Hp]]. auto.
+  - intros H. apply Hr. change (Z.testbit 1 0) with true. apply any_order_In. eexists; split; [left; reflexivity|auto].
+Qed.
+
+Lemma negb_existsb {A} (p : A -> bool) : forall l, negb (existsb p l) = forallb (fun x => negb (p x)) l.
+Proof. induction l; cbn; auto. rewrite negb_orb, IHl. reflexivity. Qed.
+
+Lemma types_allowed_tail tf n s : (1 <= n)%nat -> length s = n -> t_inv tf = true ->
+  (forall r, In r (t_ar tf) <-> Permutation (TTail :: repeat TObject (n - 1)) r) ->
+  types_allowed (Some tf) s = forallb (fun r => negb (is_tail r)) s.
+Proof.
+  intros Hn Hl Hi Hr. unfold types_allowed. rewrite Hi.
+  rewrite (tail_rows_char (t_ar tf) n (map nty s)); auto; [|rewrite map_length; auto].
+  rewrite existsb_exists'. unfold is_tail. cbn [xorb]. apply negb_existsb.
+Qed.
+
+Lemma all_eq_repeat : forall (l : list Z) d, (forall x, In x l -> x = d) -> l = repeat d (length l).
+Proof. induction l; cbn; intros d H; auto. rewrite (H a) by auto. f_equal. apply IHl. auto. Qed.
+
+Lemma map_repeat' {A B} (f : A -> B) x : forall n, map f (repeat x n) = repeat (f x) n.
+Proof. induction n; cbn; auto. rewrite IHn; auto. Qed.
+
+(* PtnFilterCombo.create([[0] * n], keys, REPEAT): the rows [d] * n for d in 0..keys-1 *)
+Lemma combo_create_repeat0 n keys excl : (1 <= n)%nat ->
+  exists kf, combo_create (In2 n [repeat 0 n]) keys 1 excl = Some kf /\
+             f_w kf = n /\ f_keys kf = keys /\ f_inv kf = excl /\
+             forall r, In r (f_ar kf) <-> exists d, 0 <= d < keys /\ r = repeat d n.
+Proof.
+  intros Hn. destruct (combo_create (In2 n [repeat 0 n]) keys 1 excl) as [kf|] eqn:E.
+  - exists kf. split; auto. apply combo_create_rows in E. destruct E as [Hw [Hk [Hi [rows1 [H1 H2]]]]].
+    repeat split; auto.
+    + intros H. apply H2 in H. change (Z.testbit 1 1) with false in H. change (Z.testbit 1 2) with false in H.
+      cbv zeta in H. change (Z.testbit 1 0) with true in H1. apply H1 in H.
+      destruct H as [base [d [[<-|[]] [_ [-> Hr]]]]]. rewrite map_repeat' in *. cbn in Hr.
+      exists d. split; auto. unfold in_range_row in Hr. rewrite Forall_forall in Hr. apply Hr.
+      destruct n; [lia|left; reflexivity].
+    + intros [d [Hd ->]]. apply H2. change (Z.testbit 1 1) with false. change (Z.testbit 1 2) with false.
+      cbv zeta. change (Z.testbit 1 0) with true in H1. apply H1.
+      exists (repeat 0 n), d. split; [left; auto|]. split; [destruct n; [lia|discriminate]|].
+      rewrite map_repeat'. split; auto. apply Forall_forall. intros x Hx. apply repeat_spec in Hx. subst; auto.
+  - exfalso. destruct n as [|n']; [lia|]. unfold combo_create in E. change (Z.testbit 1 0) with true in E.
+    unfold repeat_expand in E. cbn [repeat omap list_min list_max opt_bind] in E. discriminate.
+Qed.
+
+Lemma jack_rows_existsb (rows : list (list Z)) n keys s : (1 <= n)%nat -> length s = n ->
+  (forall r, In r rows <-> exists d, 0 <= d < keys /\ r = repeat d n) ->
+  existsb (forall2b Z.eqb (map ncol s)) rows
+  = match s with [] => false | r0 :: _ => in_keys keys (ncol r0) && forallb (fun r => ncol r =? ncol r0) s end.
+Proof.
+  intros Hn Hl Hr.
+  destruct s as [|r0 s']; [cbn in Hl; lia|]. apply bool_eq_iff. rewrite existsb_exists, andb_true_iff, forallb_forall. split.
+  - intros [row [Hrow Hf]]. apply Hr in Hrow. destruct Hrow as [d [Hd ->]]. apply forall2b_eqb_eq in Hf.
+    assert (Hall : forall r, In r (r0 :: s') -> ncol r = d).
+    { intros r Hin. apply (in_map ncol) in Hin. rewrite Hf in Hin. apply repeat_spec in Hin. auto. }
+    split.
+    + unfold in_keys. rewrite (Hall r0) by (left; auto). apply andb_true_iff. split; [apply Z.leb_le|apply Z.ltb_lt]; lia.
+    + intros r Hin. apply Z.eqb_eq. rewrite (Hall r Hin), (Hall r0) by (left; auto). reflexivity.
+  - intros [Hk Hall]. unfold in_keys in Hk. apply andb_true_iff in Hk. destruct Hk as [Hk1 Hk2].
+    apply Z.leb_le in Hk1. apply Z.ltb_lt in Hk2.
+    exists (repeat (ncol r0) n). split; [apply Hr; exists (ncol r0); split; [lia|auto]|].
+    apply forall2b_eqb_eq. rewrite <- Hl. rewrite <- (map_length ncol). apply all_eq_repeat.
+    intros x Hx. apply in_map_iff in Hx. destruct Hx as [r [<- Hin]]. apply Z.eqb_eq. auto.
+Qed.
+
+Lemma cols_allowed_jack kf n keys s : (1 <= n)%nat -> length s = n -> f_inv kf = false ->
+  (forall r, In r (f_ar kf) <-> exists d, 0 <= d < keys /\ r = repeat d n) ->
+  cols_allowed (Some kf) s
+  = match s with [] => false | r0 :: _ => in_keys keys (ncol r0) && forallb (fun r => ncol r =? ncol r0) s end.
+Proof.
+  intros Hn Hl Hi Hr. unfold cols_allowed. rewrite Hi. rewrite xorb_false_l. apply (jack_rows_existsb _ n); auto.
+Qed.
+
+Lemma filter_flat_map {A B} (p : B -> bool) (F : A -> list B) : forall l,
+  filter p (flat_map F l) = flat_map (fun x => filter p (F x)) l.
+Proof. induction l; cbn; auto. rewrite filter_app, IHl. reflexivity. Qed.
+
+Lemma filter_ext_in' {A} (p q : A -> bool) : forall l, (forall x, In x l -> p x = q x) -> filter p l = filter q l.
+Proof. induction l; cbn; intros H; auto. rewrite (H a) by auto. rewrite IHl; auto. Qed.
+
+Definition cols_within (keys : Z) (groups : list (list note)) : Prop :=
+  1 <= keys /\ forall g r, In g groups -> In r g -> 0 <= ncol r < keys.
+
+Lemma wf_template groups n kf tf keys :
+  (2 <= n)%nat -> cols_within keys groups ->
+  f_w kf = n -> f_keys kf = keys -> (forall r, In r (f_ar kf) -> exists d, 0 <= d < keys /\ r = repeat d n) ->
+  t_w tf = n -> (forall r, In r (t_ar tf) -> length r = n) ->
+  forall cf, wf_nfilter_w n cf = true -> wf_combos groups n cf (Some kf) (Some tf) = true.
+Proof.
+  intros Hn [Hk Hc] Hw Hkeys Hrows Htw Htr cf Hcf. unfold wf_combos. rewrite Hcf, Hkeys.
+  repeat (apply andb_true_iff; split); auto.
+  - apply Nat.leb_le; auto.
+  - rewrite Hw. apply Nat.eqb_refl.
+  - apply forallb_forall. intros r Hin.
+    destruct (Hrows r Hin) as [d [_ ->]]. rewrite repeat_length. apply Nat.eqb_refl.
+  - rewrite Htw. apply Nat.eqb_refl.
+  - apply forallb_forall. intros r Hin. apply Nat.eqb_eq. auto.
+  - apply Z.leb_le; auto.
+  - apply forallb_forall. intros r Hin. destruct (Hrows r Hin) as [d [Hd ->]].
+    apply forallb_forall. intros x Hx. apply repeat_spec in Hx. subst. unfold in_keys.
+    apply andb_true_iff. split; [apply Z.leb_le|apply Z.ltb_lt]; lia.
+  - apply forallb_forall. intros g Hg. apply forallb_forall. intros r Hr. specialize (Hc g r Hg Hr).
+    unfold in_keys. apply andb_true_iff. split; [apply Z.leb_le|apply Z.ltb_lt]; lia.
+Qed.
+
+(* template_jacks: exactly the jacks of the requested length, as pairs *)
+Theorem template_jacks_exact groups minlen keys :
+  2 <= minlen -> cols_within keys groups ->
+  exists out, template_jacks groups minlen keys = Some out /\ jacks_spec groups (Z.to_nat minlen) keys out.
+Proof.
+  intros Hm Hc. unfold template_jacks. replace (minlen <? 2) with false by (symmetry; apply Z.ltb_ge; lia).
+  set (n := Z.to_nat minlen). assert (Hn : (2 <= n)%nat) by (unfold n; lia).
+  destruct (combo_create_repeat0 n keys false) as [kf [-> [Hw [Hk [Hi Hr]]]]]; [lia|].
+  destruct (type_create_tail n) as [tf [-> [Htw [Hti Htr]]]]; [lia|].
+  assert (Hwf : wf_combos groups n None (Some kf) (Some tf) = true).
+  { apply (wf_template groups n kf tf keys); auto.
+    - intros r Hin. apply Hr; auto.
+    - intros r Hin. apply Htr in Hin. apply Permutation_length in Hin. rewrite <- Hin. cbn. rewrite repeat_length. lia. }
+  destruct (combos_exact groups n true None (Some kf) (Some tf) Hwf) as [out [H1 H2]].
+  exists out. split; auto. unfold jacks_spec. unfold combos_spec, reported in H2. rewrite H2.
+  apply Permutation_refl'. f_equal. unfold allowed_seqs. rewrite filter_flat_map.
+  apply flat_map_ext_in'. intros chunk Hch. cbn [chord_allowed].
+  apply filter_ext_in'. intros s Hs. apply cart_length in Hs. rewrite (windows_length _ _ _ Hch) in Hs.
+  rewrite (cols_allowed_jack kf n keys s) by (auto; lia).
+  rewrite (types_allowed_tail tf n s) by (auto; lia).
+  unfold jack_seq. reflexivity.
+Qed.
+
+(* ---- template_chord_stream *)
+Lemma flat_map_pairs_of_2 {A} : forall (l : list (list A)), (forall s, In s l -> length s = 2%nat) -> flat_map pairs_of l = l.
+Proof.
+  induction l as [|s l IH]; cbn [flat_map]; intros H; auto.
+  rewrite IH by (intros; apply H; right; auto).
+  assert (Hs : length s = 2%nat) by (apply H; left; auto).
+  destruct s as [|x [|y [|z s']]]; try discriminate. reflexivity.
+Qed.
+
+(* PtnFilterChord.create([[p, s]], keys, ANY_ORDER | AND_LOWER if and_lower else 0) *)
+Lemma chord_create_cs (p s keys : Z) (al : bool) :
+  exists cf, chord_create (In2 2 [[p; s]]) keys (if al then 3 else 0) false = Some cf /\
+             f_w cf = 2%nat /\ f_inv cf = false /\
+             (forall r, In r (f_ar cf) -> length r = 2%nat) /\
+             forall a b, existsb (forall2b Z.eqb [a; b]) (f_ar cf) = cs_sizes_ok p s al a b.
+Proof.
+  destruct (chord_create (In2 2 [[p; s]]) keys (if al then 3 else 0) false) as [cf|] eqn:E.
+  2:{ exfalso. unfold chord_create in E. destruct al; cbn in E; discriminate. }
+  exists cf. split; auto. apply chord_create_rows in E. destruct E as [Hw [Hi Hr]]. split; auto. split; auto.
+  destruct al.
+  - change (Z.testbit 3 2) with false in Hr. change (Z.testbit 3 1) with true in Hr. change (Z.testbit 3 0) with true in Hr.
+    cbv zeta in Hr.
+    assert (Hchar : forall r, In r (f_ar cf) <->
+              exists x y, (r = [x; y] \/ r = [y; x]) /\ ((x = p /\ y = s) \/ (1 <= x <= p /\ 1 <= y <= s))).
+    { intros r. rewrite Hr, any_order_In. unfold any_order_rows. split.
+      - intros [base [Hb Hp]]. apply and_lower_In in Hb. destruct Hb as [[<-|[]]|Hb].
+        + exists p, s. split; [|left; auto].
+          pose proof (Permutation_length Hp) as Hl. destruct r as [|a [|b [|c r']]]; try discriminate.
+          apply Permutation_length_2 in Hp. destruct Hp as [[-> ->]|[-> ->]]; auto.
+        + cbn in Hb. inversion Hb as [|x mx base' l' Hx Hb']; subst. inversion Hb' as [|y my base'' l'' Hy Hb'']; subst.
+          inversion Hb''; subst. exists x, y. split; [|right; split; lia].
+          pose proof (Permutation_length Hp) as Hl. destruct r as [|a [|b [|c r']]]; try discriminate.
+          apply Permutation_length_2 in Hp. destruct Hp as [[-> ->]|[-> ->]]; auto.
+      - intros [x [y [Hxy Hb]]]. exists [x; y]. split.
+        + apply and_lower_In. destruct Hb as [[-> ->]|[Hx Hy]]; [left; left; auto|right].
+          cbn. repeat constructor; lia.
+        + destruct Hxy as [->| ->]; [reflexivity|apply perm_swap]. }
+    split.
+    + intros r Hin. apply Hchar in Hin. destruct Hin as [x [y [[->| ->] _]]]; reflexivity.
+    + intros a b. apply bool_eq_iff. rewrite existsb_exists. unfold cs_sizes_ok.
+      rewrite !orb_true_iff, !andb_true_iff, !Z.eqb_eq, !Z.leb_le. split.
+      * intros [r [Hin Hf]]. apply forall2b_eqb_eq in Hf. subst r. apply Hchar in Hin.
+        destruct Hin as [x [y [[E|E] Hb]]]; inversion E; subst; destruct Hb as [[-> ->]|[Hx Hy]]; intuition.
+      * intros H. exists [a; b]. split; [|apply forall2b_eqb_eq; auto]. apply Hchar.
+        destruct H as [[[[-> ->]|[-> ->]]|H]|H].
+        -- exists p, s. auto.
+        -- exists p, s. auto.
+        -- exists a, b. split; [left; auto|right; lia].
+        -- exists b, a. split; [right; auto|right; lia].
+  - change (Z.testbit 0 2) with false in Hr. change (Z.testbit 0 1) with false in Hr. change (Z.testbit 0 0) with false in Hr.
+    cbv zeta in Hr. split.
+    + intros r Hin. apply Hr in Hin. destruct Hin as [<-|[]]. reflexivity.
+    + intros a b. apply bool_eq_iff. rewrite existsb_exists. unfold cs_sizes_ok.
+      rewrite !andb_true_iff, !Z.eqb_eq. split.
+      * intros [r [Hin Hf]]. apply forall2b_eqb_eq in Hf. subst r. apply Hr in Hin. destruct Hin as [E|[]]. inversion E; auto.
+      * intros [-> ->]. exists [p; s]. split; [apply Hr; left; auto|apply forall2b_eqb_eq; auto].
+Qed.
+
+Lemma cs_allowed_eq groups p s keys al ij cf kfo tf :
+  f_inv cf = false -> (forall a b, existsb (forall2b Z.eqb [a; b]) (f_ar cf) = cs_sizes_ok p s al a b) ->
+  t_inv tf = true -> (forall r, In r (t_ar tf) <-> Permutation (TTail :: repeat TObject (2 - 1)) r) ->
+  match kfo with
+  | None => ij = true
+  | Some kf => ij = false /\ f_inv kf = true /\
+               forall r, In r (f_ar kf) <-> exists d, 0 <= d < keys /\ r = repeat d 2
+  end ->
+  allowed_seqs groups 2 (Some cf) kfo (Some tf) = chord_stream_expected groups p s keys al ij.
+Proof.
+  intros Hci Hcc Hti Htr Hk. unfold allowed_seqs, chord_stream_expected.
+  apply flat_map_ext_in'. intros chunk Hch. pose proof (windows_length _ _ _ Hch) as Hl.
+  destruct chunk as [|g1 [|g2 [|g3 chunk']]]; try discriminate.
+  cbn [chord_allowed map]. rewrite Hci, xorb_false_l, Hcc.
+  destruct (cs_sizes_ok p s al (Z.of_nat (length g1)) (Z.of_nat (length g2))); auto.
+  apply filter_ext_in'. intros sq Hs. apply cart_length in Hs.
+  destruct sq as [|x [|y [|z sq']]]; try discriminate.
+  rewrite (types_allowed_tail tf 2 [x; y]) by (auto; lia).
+  cbn [forallb cs_seq]. destruct kfo as [kf|].
+  - destruct Hk as [-> [Hki Hkr]]. unfold cols_allowed. rewrite Hki.
+    rewrite (jack_rows_existsb (f_ar kf) 2 keys [x; y]) by (auto; lia).
+    cbn [forallb xorb orb]. rewrite Z.eqb_refl, (Z.eqb_sym (ncol y) (ncol x)).
+    destruct (in_keys keys (ncol x)), (ncol x =? ncol y), (is_tail x), (is_tail y); reflexivity.
+  - subst ij. cbn [cols_allowed orb]. destruct (is_tail x), (is_tail y); reflexivity.
+Qed.
+
+(* template_chord_stream: exactly the pairs from consecutive chords of the requested sizes *)
+Theorem template_chord_stream_exact groups p s keys al ij :
+  (ij = false -> cols_within keys groups) ->
+  exists out, template_chord_stream groups p s keys al ij = Some out /\
+              chord_stream_spec groups p s keys al ij out.
+Proof.
+  intros Hc. unfold template_chord_stream, template_chord_stream_with.
+  destruct (chord_create_cs p s keys al) as [cf [-> [Hcw [Hci [Hcl Hcc]]]]].
+  destruct (type_create_tail 2) as [tf [Et [Htw [Hti Htr]]]]; [lia|].
+  assert (Et' : type_create (In2 2 [[TTail; TObject]]) 1 true = Some tf) by exact Et. rewrite Et'. clear Et Et'.
+  assert (Htl : forall r, In r (t_ar tf) -> length r = 2%nat).
+  { intros r Hin. apply Htr in Hin. apply Permutation_length in Hin. rewrite <- Hin. reflexivity. }
+  assert (Hcfw : wf_nfilter_w 2 (Some cf) = true).
+  { cbn. rewrite Hcw. cbn. apply forallb_forall. intros r Hin. apply Nat.eqb_eq. auto. }
+  destruct ij.
+  - assert (Hwf : wf_combos groups 2 (Some cf) None (Some tf) = true).
+    { unfold wf_combos. rewrite Hcfw, Htw. cbn. rewrite andb_true_r.
+      apply forallb_forall. intros r Hin. apply Nat.eqb_eq. auto. }
+    destruct (combos_exact groups 2 true (Some cf) None (Some tf) Hwf) as [out [H1 H2]].
+    exists out. split; auto. unfold chord_stream_spec. unfold combos_spec, reported in H2. rewrite H2.
+    rewrite flat_map_pairs_of_2.
+    2:{ intros sq Hin. apply allowed_seqs_In in Hin. destruct Hin as [chunk [Hch [_ [Hf _]]]].
+        apply cart_In in Hf. apply cart_length in Hf. rewrite Hf. eapply windows_length; eauto. }
+    rewrite (cs_allowed_eq groups p s keys al true cf None tf) by auto. reflexivity.
+  - destruct (combo_create_repeat0 2 keys true) as [kf [Ek [Hkw [Hkk [Hki Hkr]]]]]; [lia|].
+    assert (Ek' : combo_create (In2 2 [[0; 0]]) keys 1 true = Some kf) by exact Ek. rewrite Ek'. clear Ek Ek'.
+    assert (Hwf : wf_combos groups 2 (Some cf) (Some kf) (Some tf) = true).
+    { apply (wf_template groups 2 kf tf keys); auto. intros r Hin. apply Hkr; auto. }
+    destruct (combos_exact groups 2 true (Some cf) (Some kf) (Some tf) Hwf) as [out [H1 H2]].
+    exists out. split; auto. unfold chord_stream_spec. unfold combos_spec, reported in H2. rewrite H2.
+    rewrite flat_map_pairs_of_2.
+    2:{ intros sq Hin. apply allowed_seqs_In in Hin. destruct Hin as [chunk [Hch [_ [Hf _]]]].
+        apply cart_In in Hf. apply cart_length in Hf. rewrite Hf. eapply windows_length; eauto. }
+    rewrite (cs_allowed_eq groups p s keys al false cf (Some kf) tf) by auto. reflexivity.
+Qed.
